@@ -284,7 +284,7 @@ Definition fault_item (details : list item) : item :=
    `wrapper` = name of the rpc wrapper element: the operation name for the request
    (WSDL 1.1 3.5), operation name + "Response" for the response (SOAP 1.1 7.1 convention,
    WS-I BP 1.1 R2729).  In a response every Body child is optional: either they or the
-   Fault appear. *)
+   Fault appear; so is the Header of a response (a Fault response need not carry it). *)
 Definition envelope (d : definitions) (style : str) (wrapper : str) (is_output : bool)
            (obm : option b_msg) (optm : option pt_msg) (faults : list pt_msg) : option item :=
   match obm, optm with
@@ -299,7 +299,7 @@ Definition envelope (d : definitions) (style : str) (wrapper : str) (is_output :
             else flat_map (fun p => olist (direct_part_item (negb is_output) p)) sel in
           let body := Node SOAP_ENV s_Body true
                         (children ++ (if is_output then [fault_item (fault_details d faults)] else [])) in
-          let header := if has_header bm then [Node SOAP_ENV s_Header true (header_items d bm)] else [] in
+          let header := if has_header bm then [Node SOAP_ENV s_Header (negb is_output) (header_items d bm)] else [] in
           Some (Node SOAP_ENV s_Envelope true (header ++ [body]))
       | _, _ => None
       end
@@ -327,6 +327,31 @@ Definition expected_port (d : definitions) (p : port) : list service_desc :=
       end
   | None => []
   end.
+
+(* XSD: an element whose type is a user-defined simple type carries text of the builtin the
+   type restricts; a data-binding tool may represent it by that builtin.  `simple` lists
+   the global simple types: (namespace, name, builtin base | None when the binding keeps
+   the type, e.g. an enumeration).  Shapes are compared after this canonicalisation. *)
+Definition simple_types := list (str * str * option str).
+Fixpoint simple_base (e : simple_types) (u l : str) : option str :=
+  match e with
+  | [] => None
+  | (u', l', b) :: r => if str_eqb u' u && str_eqb l' l then b else simple_base r u l
+  end.
+Definition canon_tref (e : simple_types) (t : tref) : tref :=
+  match t with
+  | TRef u l => match simple_base e u l with Some b => TNative b | None => t end
+  | _ => t
+  end.
+Fixpoint canon_item (e : simple_types) (i : item) : item :=
+  match i with
+  | Leaf n l r t => Leaf n l r (canon_tref e t)
+  | Node n l r cs => Node n l r (map (canon_item e) cs)
+  | Content t => Content (canon_tref e t)
+  end.
+Definition canon_sd (e : simple_types) (s : service_desc) : service_desc :=
+  mk_sd (sd_name s) (sd_style s) (sd_location s) (sd_transport s) (sd_soap_action s)
+        (option_map (canon_item e) (sd_input s)) (option_map (canon_item e) (sd_output s)).
 
 (* one description per service x port x bound operation, in document order *)
 Definition expected (d : definitions) : list service_desc :=
